@@ -357,10 +357,29 @@ func CheckMesh3(ts []*sdf.Triangle3, tol float64) MeshResult {
 		}
 	}
 	if len(ts) > 0 {
-		v := volume6(ts, ts[0][0])
-		res.VolumeSign = v.Sign()
-		f, _ := v.Float64()
-		res.Volume = f / 6
+		// float64 first (relative to a vertex of the mesh); exact rationals only when the sum is not
+		// clearly away from zero compared with the magnitude of its terms
+		o := ts[0][0]
+		sum, mag := 0.0, 0.0
+		for _, t := range ts {
+			a, b, c := t[0].Sub(o), t[1].Sub(o), t[2].Sub(o)
+			d := a.X*(b.Y*c.Z-b.Z*c.Y) - a.Y*(b.X*c.Z-b.Z*c.X) + a.Z*(b.X*c.Y-b.Y*c.X)
+			sum += d
+			mag += math.Abs(a.X*b.Y*c.Z) + math.Abs(a.X*b.Z*c.Y) + math.Abs(a.Y*b.X*c.Z) + math.Abs(a.Y*b.Z*c.X) + math.Abs(a.Z*b.X*c.Y) + math.Abs(a.Z*b.Y*c.X)
+		}
+		if math.Abs(sum) > 1e-9*mag {
+			res.Volume = sum / 6
+			if sum > 0 {
+				res.VolumeSign = 1
+			} else {
+				res.VolumeSign = -1
+			}
+		} else {
+			v := volume6(ts, o)
+			res.VolumeSign = v.Sign()
+			f, _ := v.Float64()
+			res.Volume = f / 6
+		}
 	}
 	return res
 }
